@@ -230,11 +230,20 @@ theorem step_hostname (st st' : St) (hn : Bytes) (h : step st (.set .hostname hn
 theorem step_protocol (st st' : St) (v : Bytes) (h : step st (.set .protocol v) = .ok st') :
     st' = st ∨ ∃ s u, fixURL { st.url with scheme := s } = .ok u ∧ st' = { st with url := dropDefaultPort u } := by
   simp only [step, bind, Except.bind, pure, Except.pure, throw, throwThe, MonadExceptOf.throw] at h
-  split at h
-  · cases h
-  split at h
-  · split at h
-    · generalize (if (st.url.opaq == []) = true then validHost (toLowerAscii (cut v 58).fst) st.url.host
+  by_cases hna : hasNonAscii (cut v 58).fst = true
+  · rw [if_pos hna] at h; cases h
+  rw [if_neg hna] at h
+  generalize (isSpecialProtocol st.url.scheme == isSpecialProtocol (toLowerAscii (cut v 58).fst) &&
+      (match ParseRequestURI (toLowerAscii (cut v 58).fst ++ [58, 47, 47] ++ st.url.host) with
+        | some p => p.scheme == toLowerAscii (cut v 58).fst
+        | none => false)) = cond at h
+  cases cond with
+  | false => simp only [Bool.false_eq_true, if_false] at h; cases h; exact Or.inl rfl
+  | true =>
+    simp only [if_true] at h
+    by_cases hsn : isSpecialNetProtocol (toLowerAscii (cut v 58).fst) = true
+    · rw [if_pos hsn] at h
+      generalize (if (st.url.opaq == []) = true then validHost (toLowerAscii (cut v 58).fst) st.url.host
             else Except.ok false) = w at h
       cases w with
       | error e => cases h
@@ -247,12 +256,11 @@ theorem step_protocol (st st' : St) (v : Bytes) (h : step st (.set .protocol v) 
           cases f with
           | error e => cases h
           | ok u => simp only [Except.ok.injEq] at h; exact Or.inr ⟨_, u, hf, h.symm⟩
-    · simp only [if_true] at h
+    · rw [if_neg hsn] at h
       generalize hf : fixURL _ = f at h
       cases f with
       | error e => cases h
       | ok u => simp only [Except.ok.injEq] at h; exact Or.inr ⟨_, u, hf, h.symm⟩
-  · cases h; exact Or.inl rfl
 
 /-! ## the query is a fixed point of the escaper -/
 
